@@ -130,3 +130,9 @@ theorem momenta_law (Lm Qti Li : Matrix (Fin L) (Fin L) ℝ) (c : ℝ) (hc : 0 <
   field_simp
 
 end Momtrop.C10
+
+namespace Momtrop.C10
+/-- non-vacuity of `momenta_law`: its hypotheses are met, e.g. by `L = Q⁻ᵀ = 1` in two loops with `c = 3` -/
+example : ((1 : Matrix (Fin 2) (Fin 2) ℝ)ᵀ * 1 * 1 = 1) ∧ ((1 : Matrix (Fin 2) (Fin 2) ℝ)ᵀ = 1) ∧ (0 : ℝ) < 3 := by
+  refine ⟨by simp, by simp, by norm_num⟩
+end Momtrop.C10
